@@ -1,6 +1,7 @@
 package conn
 
 import (
+	"context"
 	"fmt"
 	"io"
 	"testing"
@@ -23,6 +24,9 @@ type c05wCase struct {
 	ReqSize int
 	ErrKind int // 0 plain error, 1 wraps io.EOF, 2 io.ErrClosedPipe
 	AfterOK int // number of earlier unary calls that complete before the send direction fails
+	// Side: "client" - the client transport's writes fail; "server" - the server transport's writes fail (its answer
+	// cannot be written: the server must give the connection up, which is how the client gets to know)
+	Side string
 }
 
 func runC05Write(c c05wCase) (r pbt.Result) {
@@ -57,13 +61,64 @@ func runC05Write(c c05wCase) (r pbt.Result) {
 	case 2:
 		werr = io.ErrClosedPipe
 	}
-	w.A.FailWrites(werr)
+	if c.Side == "server" {
+		w.B.FailWrites(werr)
+	} else {
+		w.A.FailWrites(werr)
+	}
 	k := c.AfterOK
 	w.StartClient(k)
 	w.Flush(sim.Filter{Coarse: true})
 	name := fmt.Sprintf("c%d", k)
+	if c.Side == "server" {
+		// the client's call cannot be answered; the server, unable to write, has to drop the connection, and the
+		// client's call ends with that
+		if !c.Unary {
+			w.GoCall("x", "recv-after", k, func() error {
+				var b []byte
+				if st := w.Stream(k); st != nil {
+					return st.MsgRecv(&b, w.Enc)
+				}
+				return nil
+			})
+			w.Flush(sim.Filter{Coarse: true})
+		}
+		if !w.Done(name) || len(w.InCall("")) > 0 {
+			fail("the client is still waiting although the server could not write its answer")
+			return
+		}
+		if !w.ServerDone() {
+			fail("the server keeps serving a connection it cannot write to")
+			return
+		}
+		r.Label("server_side")
+		r.Label(fmt.Sprintf("errkind_%d", c.ErrKind))
+		r.NonTrivial = true
+		r.Key = fmt.Sprintf("%+v", c)
+		return
+	}
 	if !w.Done(name) || len(w.InCall(name)) > 0 {
 		fail("a call whose write failed is still waiting instead of returning an error")
+		return
+	}
+	// and the connection is not left busy by it: a further call also ends (with the same failure), it does not queue up
+	// behind the failed one
+	if !c.Unary && w.Stream(k) != nil {
+		// NewStream itself succeeded (its invoke was only buffered); the failed call is a send on a stream the
+		// application still holds open, so the connection is legitimately busy
+		r.Label(fmt.Sprintf("errkind_%d", c.ErrKind))
+		r.Label("stream_send_failed")
+		r.NonTrivial = true
+		r.Key = fmt.Sprintf("%+v", c)
+		return
+	}
+	w.GoCall("next", "invoke-after", -1, func() error {
+		in, out := sim.MakePayload(0xffff00, 'p', 0, 1), []byte(nil)
+		return w.Conn.Invoke(context.Background(), "probe-after", w.Enc, &in, &out)
+	})
+	w.Flush(sim.Filter{Coarse: true})
+	if !w.Done("next") {
+		fail("a call issued after a call whose write failed is blocked behind it")
 		return
 	}
 	sawErr := false
@@ -94,8 +149,12 @@ func runC05Write(c c05wCase) (r pbt.Result) {
 func TestC05WriteOnly(t *testing.T) {
 	gen := func(t *rapid.T) c05wCase {
 		c := c05wCase{Cfg: genCfg(t), Unary: rapid.Bool().Draw(t, "unary"), ReqSize: rapid.SampledFrom([]int{0, 5, 100, 5000}).Draw(t, "reqsize"),
-			ErrKind: rapid.IntRange(0, 2).Draw(t, "errkind"), AfterOK: rapid.IntRange(0, 2).Draw(t, "afterok")}
+			ErrKind: rapid.IntRange(0, 2).Draw(t, "errkind"), AfterOK: rapid.IntRange(0, 2).Draw(t, "afterok"),
+			Side: rapid.SampledFrom([]string{"client", "client", "server"}).Draw(t, "side")}
 		c.Cfg.RawAPI, c.Cfg.ManualFlush = false, false
+		if c.Side == "server" {
+			c.Unary = true // (the scripted stream handler would carry on after its failed send and wait for the client)
+		}
 		return c
 	}
 	pbt.Check(t, pbt.Prop[c05wCase]{ID: "C05", Name: "write_only", Gen: gen, Run: runC05Write})
